@@ -19,13 +19,31 @@ RULE = ("family `locks`: clones of one Frontend / Backend (backend->frontend pro
         "kind): every call compares its result with the reply owed to its own request, the peer counts requests that "
         "were already waiting while it still owed a reply. distinct = distinct scenario lines; non-trivial = scheduled "
         "scenarios in which some thread was observed blocked while another was parked between its send and its receive "
-        "(the window the property is about), and stress lines.")
+        "(the window the property is about), and stress lines. "
+        "Reply faults (error paths of the reply readers under concurrency): scheduled scenarios with `fault=<k>:<kind>` make the "
+        "scripted peer mistreat the request of thread k — `code` (a right-sized reply with another request code), `noreply` "
+        "(REPLY flag missing), `fd` (an unexpected descriptor attached, where the reply takes none), `close` (the peer shuts the "
+        "socket down instead of answering). Enumerated: every reply-reading method of each endpoint kind (13 reply-bearing + 4 "
+        "acknowledged Frontend methods with REPLY_ACK, the 5 Backend-proxy methods with REPLY_ACK, the 4 reply-bearing GpuBackend "
+        "methods) x every applicable fault kind x schedules with a second caller queued behind the faulted one while it is "
+        "parked between send and receive, the faulted caller queued behind a good one, two callers queued behind / the faulted "
+        "one in the middle of three (quick: the first plus one of the others in rotation; thorough: all, plus pre-released and "
+        "partner-faulted variants). Demanded (Spec.Locks.FaultClauses + the three clauses): the faulted call returns an error — "
+        "never a value, never blocks (watchdog) —, every call whose request the peer received and answered correctly gets its "
+        "own reply (the faulty reply has the size the reader consumes, so the stream stays aligned), after `close` the remaining "
+        "calls return errors, all threads finish. The model driver predicts the same observation from Model.Locks.step with "
+        "Cfg.fault (Props.C10.faulty_reply_releases_lock, others_unaffected_by_faulty_reply; the mutated rule that re-locks on "
+        "the error path is the deadlock of relock_on_error_deadlocks). Stress lines with `fault=<tag>:<kind>` make every reply "
+        "to one request tag faulty (a few percent of all calls): those calls must return errors, all others their own replies.")
 ASSUMPTIONS = [
     "std::sync::Mutex provides mutual exclusion; AF_UNIX stream sockets are FIFO per direction",
     "the peer produces a reply exactly for requests that have one by the protocol (reply-bearing requests; others iff "
     "REPLY_ACK negotiated and NEED_REPLY set) and answers in arrival order",
     "liveness assumes a fair OS scheduler; 'blocked' is observed as no progress within a bounded wait "
     "(VERIF_LOCKS_WAIT_MS, default 150 ms; extended while the thread is runnable but starved)",
+    "reply faults: a faulty reply has exactly the size the reader consumes in one recv_body (header + fixed body; for "
+    "GET_CONFIG the payload-less form), so what a reader leaves behind after refusing a reply is not exercised; after "
+    "`close` the peer is gone for good; in fault scenarios results are compared up to the kind of error",
     "Frontend::set_log_base without a region never reads a reply although the header may carry NEED_REPLY: which replies "
     "are owed is outside C10 (C04/C06); that call is only exercised with REPLY_ACK off",
 ]
@@ -51,6 +69,21 @@ FE_METHODS = ["gf", "sf40001111", "so", "ro", "smt", "slbr", "slf", "svn1.100", 
 BE_METHODS = ["soa1.0", "sor2.0", "sol3.0", "smap4.0", "sunm5.0"]
 GPU_METHODS = ["gpf", "spf", "gdi", "ged1", "sc2", "us3", "ds4", "dt5", "uds6", "cp7", "cph8", "cu"]
 
+# reply faults: (endpoint, ack, methods whose reply is read, partner, third caller, alternative third caller)
+FAULT_KINDS = ["code", "noreply", "fd", "close"]
+FE_FAULT_METHODS = ["gf", "gpf", "gqn", "gmms", "cds", "sdsf", "slbr", "gso", "pca", "gsc", "gif3", "gvb2", "gcfg10",   # reply-bearing
+                    "so", "svn1.100", "smt", "sf40001111"]                                                            # acknowledged
+NO_FD_FAULT = {"sdsf", "gso", "pca", "gif3"}          # replies that may / must carry a descriptor anyway
+FAULT_GROUPS = [("fe", 1, FE_FAULT_METHODS, "gvb1", "so", "sen5"),
+                ("be", 1, ["soa1.0", "sor2.0", "sol3.0", "smap4.0", "sunm5.0"], "sor9.0", "soa7.0", "sunm7.0"),
+                ("gpu", 0, ["gpf", "gdi", "ged1", "uds6"], "ged9", "cp7", "cp7")]
+# thread 0 = the method under test (faulted), thread 1 = partner, thread 2 = third caller
+FAULT_BEHIND = "s0,s1,r0,r1"                 # a second caller queued behind the faulted one (parked in the window)
+FAULT_ROTATE = ["s1,s0,r1,r0",               # the faulted caller queued behind a good one
+                "s0,s1,s2,r0,r1,r2",         # two callers queued behind the faulted one
+                "s1,s0,s2,r1,r0,r2"]         # the faulted one in the middle of three
+FAULT_MORE = ["r0,s0,s1,r1", "s0,r0,s1,r1", "s0,s1,s2,r0,r2,r1"]
+
 
 def orders(n, prerelease):
     """all orders of s0..s(n-1), r0..r(n-1); with prerelease=False only those with s_i before r_i"""
@@ -64,8 +97,35 @@ def orders(n, prerelease):
     return out
 
 
-def line(ep, ack, calls, sched):
-    return f"locks ep={ep} ack={ack} calls={','.join(calls)} sched={sched}"
+def line(ep, ack, calls, sched, fault=None):
+    n = 3 if "s2" in sched else 2
+    l = f"locks ep={ep} ack={ack} calls={','.join(calls[:n])} sched={sched}"
+    return l + (f" fault={fault}" if fault else "")
+
+
+def fault_lines(thorough):
+    """every reply-reading method x fault kind x schedules with other callers queued behind / in front"""
+    L = []
+    k = 0
+    for ep, ack, methods, partner, third, third_alt in FAULT_GROUPS:
+        for m in methods:
+            t3 = third_alt if m == third else third
+            calls = (m, partner, t3)
+            for kind in FAULT_KINDS:
+                if kind == "fd" and m in NO_FD_FAULT:
+                    continue
+                L.append(line(ep, ack, calls, FAULT_BEHIND, f"0:{kind}"))
+                if thorough:
+                    for sc in FAULT_ROTATE + FAULT_MORE:
+                        L.append(line(ep, ack, calls, sc, f"0:{kind}"))
+                    # the partner's reply is the faulty one, the method under test is the bystander
+                    if not (kind == "fd" and partner in NO_FD_FAULT):
+                        L.append(line(ep, ack, calls, FAULT_BEHIND, f"1:{kind}"))
+                        L.append(line(ep, ack, calls, "s1,s0,r1,r0", f"1:{kind}"))
+                else:
+                    L.append(line(ep, ack, calls, FAULT_ROTATE[k % len(FAULT_ROTATE)], f"0:{kind}"))
+                k += 1
+    return L
 
 
 class LocksFamily(Family):
@@ -91,12 +151,14 @@ class LocksFamily(Family):
 
     def finding_key(self, line, obs, so):
         t = dict(x.split("=", 1) for x in line.split()[1:] if "=" in x)
-        return "locks:" + ":".join(t.get(k, "") for k in ("ep", "ack", "calls", "sched", "stress", "only"))
+        return "locks:" + ":".join(t.get(k, "") for k in ("ep", "ack", "calls", "sched", "stress", "only")) + \
+            (":fault=" + t["fault"] if "fault" in t else "")
 
     def describe_spec_failure(self, line, obs, spec_out):
         return (f"locks: `{line}`: {spec_out} (atomic = a request reached the peer between another caller's request and "
                 f"the consumption of its reply; own_reply = a caller did not get the reply to its own request; "
-                f"all_complete = a call did not return): observed `{obs[:400]}`")
+                f"all_complete = a call did not return — blocked or deadlocked; faulty_is_error = the call whose reply the "
+                f"peer made faulty returned a value): observed `{obs[:400]}`")
 
     def generate(self, tier, rng):
         thorough = tier == "thorough"
@@ -134,6 +196,12 @@ class LocksFamily(Family):
                 for m in methods:
                     L.append(line(ep, 0, (m, partner), "s0,s1,r0,r1"))
                     L.append(line(ep, 0, (m, partner), "s1,s0,r1,r0"))
+        # reply faults, spread over the chunks that check.py hands to parallel harness processes (a deadlocking
+        # endpoint kind costs one watchdog period per scenario; keep those out of a single chunk)
+        F = fault_lines(thorough)
+        stepf = max(1, len(L) // (len(F) + 1))
+        for k, f in enumerate(F):
+            L.insert(min(len(L), (k + 1) * stepf + k), f)
         # randomized stress
         per = 2000 if thorough else 250
         seeds = [rng.getrandbits(32) for _ in range(4 if thorough else 1)]
@@ -141,6 +209,14 @@ class LocksFamily(Family):
         for sd in seeds:
             for ep, ack in (("fe", 1), ("fe", 0), ("be", 1), ("gpu", 0)):
                 stress.append(f"locks ep={ep} ack={ack} stress=8x{per} seed={sd:x}")
+        # stress with a small fraction of faulty replies: every reply to one request tag
+        fstress = [("fe", 1, "gvb1", "code"), ("be", 1, "sor3.0", "noreply"), ("gpu", 0, "ged1", "fd")]
+        if thorough:
+            fstress += [("fe", 1, "gcfg10", "noreply"), ("fe", 1, "gso", "code"), ("fe", 1, "so", "fd"), ("fe", 0, "gf", "fd"),
+                        ("be", 1, "smap7.0", "code"), ("be", 1, "soa1.0", "fd"), ("gpu", 0, "gpf", "code"),
+                        ("gpu", 0, "gdi", "noreply"), ("gpu", 0, "uds1", "code")]
+        for ep, ack, tag, kind in fstress:
+            stress.append(f"locks ep={ep} ack={ack} stress=8x{per} seed={rng.getrandbits(32):x} fault={tag}:{kind}")
         # focused stress: each public method against a reply-bearing partner from 8 threads (a method that
         # drops the guard between send and receive only misbehaves when another thread gets the lock in that gap)
         fper = 600 if thorough else 150
@@ -159,6 +235,8 @@ class LocksFamily(Family):
         for l in lines:
             t = dict(x.split("=", 1) for x in l.split()[1:] if "=" in x)
             kind = "stress" if "stress" in t else f"{len(t.get('calls', '').split(','))}-thread"
+            if "fault" in t:
+                kind += "+fault:" + t["fault"].split(":")[1]
             key = f"{t.get('ep')}/ack={t.get('ack')}/{kind}"
             e = d.setdefault(key, {"scenarios": 0, "window_exercised": 0, "lock_contended_by_2": 0})
             e["scenarios"] += 1
